@@ -163,6 +163,20 @@ Theorem C19_defaults_total : forall sha body d b p,
 Proof. exact defaults_total. Qed.
 Print Assumptions C19_defaults_total.
 
+(* ---- SVID conversion (internal/spiffe SVIDDetails.InTotoKey) ---- *)
+
+(* the key of a SPIFFE workload is the default load of its PKCS#8 private key plus the leaf
+   certificate: with C19_same_pair_same_id it has the id of the public and certificate forms,
+   with C19_private_iff_private_material / C19_halves its private half is the normalised one *)
+Theorem C19_svid_key_is_default_load : forall sha body d raw k,
+  svid_in_toto_key sha body (Some d) raw = Ok k ->
+  exists k0, load_key_reader_defaults sha body (RData d) = Ok k0 /\
+    k_keyid k = k_keyid k0 /\ k_hashalgs k = k_hashalgs k0 /\ k_keytype k = k_keytype k0 /\
+    k_scheme k = k_scheme k0 /\ k_public k = k_public k0 /\ k_private k = k_private k0 /\
+    k_cert k = pem_encode body (bs "CERTIFICATE") [] raw.
+Proof. exact svid_key_is_default_load. Qed.
+Print Assumptions C19_svid_key_is_default_load.
+
 (* ---- anything else is refused ---- *)
 Theorem C19_non_keys_refused : forall sha body scheme algs,
   (is_ok (load_key_reader sha body RNil scheme algs) = false /\
